@@ -12,6 +12,8 @@ NSHARDS = 64
 def tree_case(tree, continuation=False, extra_script=False, prefix=False, suffix=0):
     body, k = bodies.instantiate(tree)
     prog, nargs = bodies.context_program(body, k, continuation=continuation, prefix=prefix, suffix=suffix)
+    if _has_leaf(tree, 'j'):
+        prog = prog + bodies.KK_CLAUSES
     scripts = [(LEAF_PROGRAM, True, True), (prog, True, False)]
     if extra_script:
         # a second script adding clauses of p without overwrite: its clauses come after the
@@ -23,6 +25,12 @@ def tree_case(tree, continuation=False, extra_script=False, prefix=False, suffix
     qv = [V('A%d' % i) for i in range(1, nargs + 1)] + [V('Z')]
     goal = F('c', *qv)
     return Case(scripts, facts, [goal])
+
+
+def _has_leaf(t, kind):
+    if t[0] == 'L':
+        return t[1] == kind
+    return any(_has_leaf(c, kind) for c in t[1:])
 
 
 def enumerate_trees(maxops):
